@@ -4,10 +4,10 @@ from vf.runner import Inst
 
 PROPERTY = 'C34'
 LEVEL = 'model_checking'
-BOUNDS = {'quick': dict(types='SecInt(10), data values in [-4,4)', mean='n in {1,2,4}', median='median, median_low, median_high n<=2', quantiles='quartiles of 2 and 3 points, both methods (2 points: extrapolated cut points of the exclusive method)',
-                        mode='n<=2, SecInt(4), values in [0,4)', variance='variance n=2, pvariance n=2, stdev/pstdev through _isqrt', restarts='pivot / rejection loops: one restart'),
+BOUNDS = {'quick': dict(types='SecInt(10), data values in [-4,4)', mean='n in {1,2,4}; fixed point SecFxp(8,4): n in {2,3} within two units of s*c/2^(f+e), c the rounded public factor', median='median, median_low, median_high n<=2', quantiles='quartiles of 2 and 3 points, both methods (2 points: extrapolated cut points of the exclusive method)',
+                        mode='n<=2, SecInt(4), values in [0,4)', variance='variance n=2, pvariance n=2, stdev/pstdev through _isqrt, covariance n=2', restarts='pivot / rejection loops: one restart'),
           'thorough': dict(mean='n in {1,2,3,4,8}', median='n<=4', quantiles='2..4 points', mode='n<=4', variance='as quick plus n=3 through the secure division')}
-OUTSIDE = ['secure fixed-point statistics (Newton/truncation pipelines: _fsqrt, fixed-point variance)', 'covariance, correlation, linear_regression',
+OUTSIDE = ['secure fixed-point statistics other than mean (Newton/truncation pipelines: _fsqrt, fixed-point variance)', 'correlation, linear_regression, covariance beyond two points',
            'divisors n^2(n-1) that are not powers of two (secure floor division by 18, 48, ...: C01 covers the division protocol for divisors <= 5)',
            'data sizes beyond the bound', 'ties in quickselect beyond what the bound exercises (information leakage of ties is documented upstream)']
 ASSUMPTIONS = ['quick tier, quartiles of 2 points only: Runtime.mod(a, 4) by its contract (C01) in the symbolic run', 'secure comparison exact (C01), unit_vector exact (C30) -- used through their contracts in the symbolic run; replays run the real protocols', 'random_bits ideal (C33)']
@@ -48,7 +48,7 @@ def h_stat(env):
     P = env.params
     what, n = P['what'], P['n']
     k, mpc, stats = _setup(env, cap=P.get('cap', 8), ideal_mod=P.get('ideal_mod', False))
-    env.encoded(stats.mean, stats._med, stats._quickselect, stats.quantiles, stats._mode, stats._var, stats._std, stats._isqrt)
+    env.encoded(stats.covariance, stats.mean, stats._med, stats._quickselect, stats.quantiles, stats._mode, stats._var, stats._std, stats._isqrt)
     st, vs, xs = _data(env, k, mpc, n, *(P.get('range') or (-4, 4)), l=P.get('l', 10))
     sv = k.sval
     if what == 'mean':
@@ -101,6 +101,28 @@ def h_stat(env):
         for c in cnt[1:]:
             best = env.ite(c > best, c, best)
         env.check('mode:member_with_max_count', env.any(env.all([r == vs[i], cnt[i] == best]) for i in range(n)))
+    elif what == 'mean_fxp':
+        f = 4
+        sf = mpc.SecFxp(8, f)
+        ws = [env.fresh(f'w{i}', -32, 32) for i in range(n)]         # values in [-2, 2) in units of 2^-4
+        r = sv(stats.mean([sf(sf.field(w), integral=False) for w in ws]))
+        tot = sum(ws)
+        e = n.bit_length() - 1
+        c = round((2 ** e / n) * (1 << f))                            # the public factor 2^e/n as the library rounds it to f fractional bits
+        env.check('public_factor_rounding', abs(c / (1 << f) - 2 ** e / n) <= 2 ** -(f + 1))
+        # two public-float multiplications with one truncation each (the second is exact for e = 0): within two units of s*c/2^(f+e)
+        D = (1 << f) << e
+        env.check('mean_fxp:within_two_units', (r * D - tot * c <= 2 * D) & (tot * c - r * D <= 2 * D))
+    elif what == 'covariance':
+        st2, ws, ys = _data(env, k, mpc, n, -4, 4, l=P.get('l', 10))
+        ws = [env.fresh(f'y{i}', -4, 4) for i in range(n)]
+        ys = [st(st.field(v)) for v in ws]
+        r = sv(stats.covariance(xs, ys))
+        sx, sy = sum(vs), sum(ws)
+        num = sum((n * a_ - sx) * (n * b_ - sy) for a_, b_ in zip(vs, ws))
+        d = n * n * (n - 1)
+        env.check('covariance:nearest_integer', (2 * (r * d - num) <= d) & (2 * (num - r * d) <= d))
+        env.eq('covariance:round_half_up', r, (num + d // 2) // d)
     elif what in ('variance', 'pvariance', 'stdev', 'pstdev'):
         corr = 1 if what in ('variance', 'stdev') else 0
         s = sum(vs)
@@ -159,6 +181,9 @@ def instances(tier):
         out.append(Inst(f'mode[n={n}]', h_stat, dict(what='mode', n=n, range=(0, 4), l=4), **T))
     out.append(Inst('variance[n=2]', h_stat, dict(what='variance', n=2), **T))
     out.append(Inst('stdev[n=2]', h_stat, dict(what='stdev', n=2), **T))
+    for n in (2, 3):
+        out.append(Inst(f'mean_fxp[8:4,n={n}]', h_stat, dict(what='mean_fxp', n=n), **T))
+    out.append(Inst('covariance[n=2]', h_stat, dict(what='covariance', n=2), **T))
     for n in (2,):
         out.append(Inst(f'pvariance[n={n}]', h_stat, dict(what='pvariance', n=n), **T))
         out.append(Inst(f'pstdev[n={n}]', h_stat, dict(what='pstdev', n=n), **T))
